@@ -616,6 +616,7 @@ def const_eval(e):
         a = const_eval(e.e)
         if a is None: return None
         if e.t == BOOL: return _truthy(a)
+        if e.t == BYTE: return int(a) & 0xFF      # hidc truncates constant casts to byte
         return int(a)
     if isinstance(e, Bin):
         a, b = const_eval(e.a), const_eval(e.b)
